@@ -297,6 +297,20 @@ def t_pda(acc, n, k, g, t, N, ns, limits, shard, nshard, stride=1, offset=0, tmi
             check_pda(acc, spec, N, ns, tuple(limits))
 
 
+def t_pda_family(acc, family, N, ns, limits, shard, nshard, stack=('x', 'y')):
+    """Thin PDA families (wave 5): stack symbols whose concatenations coincide; coprime epsilon cycles; one fan whose
+    per-configuration closures (767) fit any limit near the default while the closure of the SET of configurations
+    (1278) only fits a limit raised above the default of 1000."""
+    from mc.props import c09
+    if family == 'fan':
+        gen = [(0, pda.fan_instance(8))]
+    else:
+        gen = {'multichar': c09.multichar_family, 'pushpop': pda.multichar_pushpop_family, 'cyc': lambda: pda.cyc_family(3, front=True)}[family]()
+    for idx, spec in gen:
+        if idx % nshard == shard:
+            check_pda(acc, spec, N, ns, tuple(limits), tuple(stack))
+
+
 def t_tm(acc, w, g, N, ns, budgets, shard, nshard, stride=1, offset=0):
     if w == 0:
         for spec in tm.tm_halting_start(g):
@@ -342,6 +356,12 @@ def plan(tier, seed):
     add('t_pda', 32, n=2, k=1, g=1, t=3, N=N, ns=ns, limits=lim, stride=4 if q else 1, offset=seed)
     add('t_pda', 16, n=2, k=2, g=1, t=2, N=min(N, 3), ns=[0, 1, 2, 3], limits=lim, stride=4 if q else 1, offset=seed)
     add('t_pda', 8, n=2, k=1, g=1, t=3, N=2, ns=[0, 1, 2], limits=[13, 30], stride=64 if q else 16, offset=seed, tmin=2)
+    tasks.insert(0, ('plain', P + 't_pda_family', {'family': 'fan', 'N': 9, 'ns': [9], 'limits': [1400], 'shard': 0, 'nshard': 1}))
+    add('t_pda_family', 1, family='multichar', N=3, ns=[0, 1, 2, 3], limits=[5, 8], stack=['A', 'B', 'AB'])
+    add('t_pda_family', 1, family='multichar', N=2, ns=[0, 1, 2], limits=[8], stack=['γ', 'Ω', 'γΩ'])
+    add('t_pda_family', 1, family='cyc', N=2, ns=[0, 1, 2], limits=[8, 60])
+    add('t_pda_family', 4, family='pushpop', N=4, ns=[0, 2, 3, 4], limits=[8], stack=['A', 'B', 'AB', '$'])
+    add('t_pda_family', 1, family='pushpop', N=3, ns=[3], limits=[8], stack=['γ', 'Ω', 'γΩ', '$'])
     B = [0, 1, 2, 4, 8, 1000]
     add('t_tm', 1, w=0, g=2, N=2, ns=[0, 1, 2], budgets=B)
     add('t_tm', 2, w=1, g=2, N=3, ns=[0, 1, 2, 3], budgets=B)
@@ -353,4 +373,4 @@ def plan(tier, seed):
               'TM': 'TM(0,2), TM(1,2), TM(1,3), TM(2,2) {} x budgets 0,1,2,4,8(,1000)'.format('stride 1/8' if q else 'all')}
     return {'tasks': tasks, 'bounds': bounds, 'exhaustive': True,
             'rule': 'every object of the six kinds inside the bounds x every bound n x every limit/budget: enumeration vs the library acceptance test on all of Sigma^<=n (as C02 is worded), words checked for length and alphabet, generate_language vs the specific enumerator; PDA equality only under the closure premise (decided by explicit configuration search), otherwise subset of the reference language; non-trivial = some but not all words accepted',
-            'assumptions': ['the acceptance tests themselves are judged by C01/C05/C07/C09/C11']}
+            'assumptions': ['the acceptance tests themselves are judged by C01/C05/C07/C09/C11', 'wave 5 PDA families: stack symbols A, B, AB and outside latin-1; coprime epsilon cycles; one fan instance at limit 1400 whose set closures have 1278 configurations (words <= 9)']}
